@@ -1022,6 +1022,40 @@ func (ss *SnapSim) compare(elapsed time.Duration, tEnd int64) *Violation {
 			return ss.violation("C03.expiry", "expiry shifted (via "+path+")", "key %s: snapshot expiry %d, target expiry %d (allowed: +0..%d ms of scheduler latency)", k.Describe(), E, o.ExpireAt, L)
 		}
 	}
+	// entries without a key: function libraries (a target of version 7+ takes them by FUNCTION RESTORE) and the
+	// scripts of an old snapshot's "lua" aux fields (SCRIPT LOAD)
+	// (not judged under output filters: the rules of C10 speak of commands and keys; what the key rules do to an entry
+	// without a key is a by-product noted in DESIGN §7.4)
+	keyless := !ss.cfg.Bisync && ss.cfg.Filters == nil
+	if ss.srv.VerAtLeast(7, 0) && keyless {
+		for i, body := range ss.info.Functions {
+			found := false
+			for _, got := range ss.srv.Functions {
+				if bytes.Equal(got, body) {
+					found = true
+				}
+			}
+			if !found {
+				return ss.violation("C03.missing", "function library missing on target", "function library #%d of the snapshot (%d bytes serialized) was not loaded by the target (FUNCTION RESTORE accepted for %d of %d libraries)", i, len(body), len(ss.srv.Functions), len(ss.info.Functions))
+			}
+		}
+	}
+	if keyless {
+		for _, a := range ss.ds.TailAux {
+			if string(a.Key) != "lua" {
+				continue
+			}
+			loaded := false
+			for _, src := range ss.srv.Scripts {
+				if src == string(a.Val) {
+					loaded = true
+				}
+			}
+			if !loaded {
+				return ss.violation("C03.missing", "script of a lua aux field missing on target", "the script of the snapshot's \"lua\" aux field (%q) was not loaded by the target", a.Val)
+			}
+		}
+	}
 	for db := 0; db < ss.srv.NumDB; db++ {
 		for _, name := range ss.srv.Keys(db) {
 			if simredis.IsReservedKey([]byte(name)) {
